@@ -63,8 +63,17 @@ def strategy_(draw):
     return {"spec": sp, "rng": draw(st.integers(0, 2**31 - 1))}
 
 
+@st.composite
+def dae_shooting_strategy(draw):
+    """A scaled algebraic variable under a shooting method with a DAE integrator: its guess starts the integrator's root finder."""
+    a_ = draw(st.sampled_from([0.5, 1.0, -1.0]))
+    return {"kind": "dae_shooting", "cls": draw(st.sampled_from(["MS", "SS"])), "N": draw(st.integers(1, 3)), "M": draw(st.integers(1, 2)),
+            "roots": [a_, a_ + draw(st.sampled_from([1.0, 2.0]))], "guess_at": draw(st.sampled_from([0.2, 0.8])), "scale": draw(st.sampled_from([0.1, 10.0, 40.0])),
+            "phase": draw(st.sampled_from(["before", "after"])), "T": draw(st.sampled_from([1.0, 0.5])), "rng": 0}
+
+
 def strategy(tier):
-    return strategy_()
+    return st.one_of(*([strategy_()] * 9 + [dae_shooting_strategy()]))
 
 
 def unscaled(sp):
@@ -84,6 +93,8 @@ def scale_vec(d):
 
 
 def nontrivial(case):
+    if case.get("kind") == "dae_shooting":
+        return True
     sp = case["spec"]
     elementwise = any(isinstance(d.get("scale"), list) for d in sp["states"] + sp["controls"] + sp["vars"] + sp.get("algebraics", []))
     conscale = any(c.get("scale") not in (None, 1.0) for c in sp["constraints"])
@@ -91,6 +102,8 @@ def nontrivial(case):
 
 
 def classify(case):
+    if case.get("kind") == "dae_shooting":
+        return ["scaled algebraic guess under shooting", "method:" + case["cls"], "phase:" + case["phase"]]
     sp = case["spec"]
     labs = ["method:" + sp["method"]["cls"]]
     if any(isinstance(d.get("scale"), list) for d in sp["states"] + sp["controls"] + sp["vars"] + sp.get("algebraics", [])):
@@ -111,6 +124,8 @@ def classify(case):
 
 
 def abbreviate(case):
+    if case.get("kind") == "dae_shooting":
+        return case
     sp = case["spec"]
     return {"method": sp["method"], "states": sp["states"], "controls": sp["controls"], "vars": sp["vars"], "der_scale": sp["der_scale"],
             "constraints": [{k: v for k, v in c.items() if k in ("rel", "grid", "scale", "rhs", "lb", "ub")} for c in sp["constraints"]], "rng": case["rng"]}
@@ -130,7 +145,43 @@ def is_raw(B, mcls, lab, i):
     return d["kind"] in ("control", "var", "alg")
 
 
+def check_dae_shooting(case, ctx):
+    """0 = (z-a)(z-b) has two roots; which one the integrator's root finder reaches depends on where it starts, i.e. on the guess for z.
+    The guess is in physical units whatever the declared scale: scaled and unscaled declarations must produce the same trajectory."""
+    from rockit import Ocp, MultipleShooting, SingleShooting
+    from vlib.build import IPOPT_QUIET
+    a_, b_ = case["roots"]
+    g = a_ + case["guess_at"] * (b_ - a_)
+    out = []
+    for scale in (1.0, case["scale"]):
+        ocp = Ocp(T=case["T"])
+        x, u = ocp.state(), ocp.control()
+        z = ocp.algebraic(scale=scale)
+        ocp.set_der(x, z + u)
+        ocp.add_alg((z - a_) * (z - b_))
+        ocp.add_objective(ocp.integral(u ** 2))
+        ocp.subject_to(ocp.at_t0(x) == 0)
+        ocp.method({"MS": MultipleShooting, "SS": SingleShooting}[case["cls"]](N=case["N"], M=case["M"], intg="collocation"))
+        ocp.solver("ipopt", dict(IPOPT_QUIET))
+        if case["phase"] == "after":
+            ocp.sample(x, grid="control")
+        ocp.set_initial(z, g)
+        try:
+            sol = ocp.solve()
+        except Exception as ex:
+            raise HarnessInconclusive("DAE shooting problem did not solve: %s" % str(ex)[:60])
+        out.append(np.asarray(sol.sample(x, grid="control")[1]).reshape(-1))
+    ctx.count("solves", 2)
+    ctx.count("dae_shooting_cases")
+    if not close(out[0], out[1], 1e-6, 1e-7):
+        return [Fail("algebraic-guess-physical-units", {"kind": "dae_shooting", "method": case["cls"], "phase": case["phase"]},
+                     {"guess": g, "roots": [a_, b_], "scale": case["scale"], "x_unscaled": out[0], "x_scaled": out[1]})]
+    return []
+
+
 def check(case, ctx):
+    if case.get("kind") == "dae_shooting":
+        return check_dae_shooting(case, ctx)
     spA = copy.deepcopy(case["spec"])
     m = spA["method"]
     if any(c04.degenerate(c) for c in spA["constraints"]):
